@@ -278,6 +278,19 @@ func runParse(w *world, pc *parseCase) (gal.Case, []byte) {
 		keys[k] = keyFile(w.key(k), pc.KeyForm[k])
 	}
 
+	// what the harness's own decoding makes of every configured key file
+	var kk []string
+	for _, kn := range pc.Keys {
+		kind := "KRsa"
+		if block, _ := pem.Decode(keys[kn]); block == nil {
+			kind = "KNoPem"
+		} else if pub, err := x509.ParsePKIXPublicKey(block.Bytes); err != nil {
+			kind = "KBadDer"
+		} else if _, ok := pub.(*rsa.PublicKey); !ok {
+			kind = "KNotRsa"
+		}
+		kk = append(kk, gal.Pair(gal.Str(kn), kind))
+	}
 	// truth table of verification over the signed region, with crypto/rsa directly
 	var vt []string
 	if len(members) > 0 {
@@ -379,9 +392,9 @@ func runParse(w *world, pc *parseCase) (gal.Case, []byte) {
 		}
 		gm = append(gm, galMember(es, m.Pending, m.Tail))
 	}
-	term := fmt.Sprintf("{| p_ignore := %s; p_listed := %s; p_url := %s; p_arch := %s; p_keys := %s; p_members := %s; p_verify := %s; p_texts := %s; o_should_check := %s; o_result := %s; o_signature := %s |}",
+	term := fmt.Sprintf("{| p_ignore := %s; p_listed := %s; p_url := %s; p_arch := %s; p_keys := %s; p_members := %s; p_verify := %s; p_keykinds := %s; p_texts := %s; o_should_check := %s; o_result := %s; o_signature := %s |}",
 		gal.Bool(pc.Ignore), gal.StrList(pc.Listed), gal.Str(pc.URL), gal.Str(pc.Arch), gal.StrList(pc.Keys),
-		gal.List(gm), gal.List(vt), gal.List(tt), gal.Bool(should), obs, obsSig)
+		gal.List(gm), gal.List(vt), gal.List(kk), gal.List(tt), gal.Bool(should), obs, obsSig)
 	class := "reject"
 	if accepted {
 		class = "accept"
